@@ -14,6 +14,9 @@ var (
 	MaxHintLength    = MaxTypeLength + MaxVersionLength + 1
 	MinHintLength    = MinTypeLength + util.MinVersionLength + 1
 	regVersion       = regexp.MustCompile(`\-v\d+`)
+	// regDottedVersion finds where the printed version, "-v<major>.", starts;
+	// Type can not have '.', but it can have "-v<digits>" like "a-v1".
+	regDottedVersion = regexp.MustCompile(`\-v\d+\.`)
 )
 
 var hintcache util.GCache[string, any]
@@ -41,7 +44,11 @@ func NewHint(t Type, v util.Version) Hint {
 
 // EnsureParseHint tries to parse hint string, but skips to check IsValid().
 func EnsureParseHint(s string) Hint {
-	l := regVersion.FindStringIndex(s)
+	l := regDottedVersion.FindStringIndex(s)
+	if len(l) < 1 {
+		l = regVersion.FindStringIndex(s)
+	}
+
 	if len(l) < 1 {
 		return Hint{}
 	}
